@@ -55,7 +55,8 @@ class HelpersMachine(Machine):
         nc = rng.randint(1, 4)
         types = [rng.choice(["int", "float", "str", "bool", "int_none"]) for _ in range(nc)]
         if target == "rows_array":
-            types = [rng.choice(["int", "float", "str", "bool", "default"]) for _ in range(nc)]
+            types = [rng.choice(["int", "float", "str", "bool", "default", "uint"])
+                     for _ in range(nc)]
         # column names in no particular (in particular: not alphabetical) order
         cfg["cols"] = rng.sample(COLS + ["zeta", "alpha", "Mid", "b2"], nc)
         cfg["types"] = types
@@ -68,7 +69,7 @@ class HelpersMachine(Machine):
         if cfg["initial"] and target.startswith("rows"):
             def cell(t):
                 return {"int": 1, "float": 1.5, "str": "ab", "bool": True, "int_none": 2,
-                        "default": 2.0}[t]
+                        "default": 2.0, "uint": 3}[t]
             cfg["init_data"] = [[cell(t) for t in types] for _ in range(rng.randint(1, 3))]
         cfg["dict_start"] = rng.random() < 0.3 and target in ("rows_list", "rows_array")
         if cfg["dict_start"] and target == "rows_array":
@@ -110,7 +111,8 @@ class HelpersMachine(Machine):
                 plain = all(t == "default" for t in self.types)
                 for n, t in zip(self.cols, self.types):
                     spec[n] = {} if t == "default" else {"dtype": {"int": int, "float": float,
-                                                                  "str": str, "bool": bool}[t]}
+                                                                  "str": str, "bool": bool,
+                                                                  "uint": np.uint16}[t]}
                 self._columns_arg = list(self.cols) if plain else spec
                 self.rc = RowCollector(self._columns_arg, array=True)
                 self.cols_known = True
@@ -134,6 +136,8 @@ class HelpersMachine(Machine):
         small = self.cfg["ties"]
         if t == "int":
             return rng.randint(0, 3) if small else rng.randint(-1000, 1000)
+        if t == "uint":
+            return rng.randint(0, 3) if small else rng.choice([0, 0, 1, 2, 5, 40, 65535])
         if t == "default" and self.cfg.get("mixed_numeric"):
             r = rng.random()
             if r < 0.4:
@@ -173,6 +177,10 @@ class HelpersMachine(Machine):
         if self.kind.startswith("table"):
             n = len(self.model)
             r = rng.random()
+            if rng.random() < 0.06:
+                # the documented way of printing a table; whatever it returns, the table is the
+                # table it was (checked by the per-step comparison with the model)
+                return {"op": "convert", "how": rng.choice(["to_dataframe", "to_text", "data"])}
             if self.keyed:
                 keys = c["keys"]
                 present = list(self.model)
@@ -215,6 +223,9 @@ class HelpersMachine(Machine):
             p = rng.randint(-n - 1, n) if rng.random() < c["p_fail"] else rng.randint(-n, n - 1)
             return {"op": "get_pos", "pos": p}
         # row collector
+        if self.cols_known and rng.random() < 0.06:
+            return {"op": "convert", "how": rng.choice(["to_dataframe", "to_text", "to_dict",
+                                                          "to_dataframe_cols"])}
         r = rng.random()
         n = len(self.rows)
         row = [self._cell(rng, t) for t in self.types]
@@ -234,7 +245,8 @@ class HelpersMachine(Machine):
                 return {"op": "sort_any", "col": self.cols[self.types.index("int_none")],
                         "reverse": rng.random() < 0.4}
             if self.array:
-                numeric = [i for i, t in enumerate(self.types) if t in ("int", "float", "default")]
+                numeric = [i for i, t in enumerate(self.types)
+                           if t in ("int", "float", "default", "uint")]
                 if numeric:
                     bad = list(row)
                     bad[rng.choice(numeric)] = rng.choice(["abc", "1,5", "0x"])
@@ -330,6 +342,25 @@ class HelpersMachine(Machine):
     def _apply_table(self, op):
         k = op["op"]
         t, m = self.t, self.model
+        if k == "convert":
+            try:
+                if op["how"] == "to_dataframe":
+                    df = t.to_dataframe()
+                    got = len(df)
+                elif op["how"] == "to_text":
+                    got = len(t.to_text().splitlines()) - 1
+                    t.to_text()                       # twice: printing is repeatable
+                else:
+                    got = len(t.data())
+            except Exception as e:
+                raise Violation("accessor_failed",
+                                {"after": op["how"], "error": [type(e).__name__, repr(e.args)[:200]]},
+                                signature=f"C20/accessor_failed/{self.kind}")
+            if got != len(m) and not (op["how"] == "to_text" and len(m) == 0):
+                raise Violation("table_differs_from_model",
+                                {"after": op["how"], "accessor": op["how"], "got": got,
+                                 "want": len(m)}, signature=f"C20/table/{op['how']}")
+            return "converted", op["how"]
         if self.keyed:
             if k in ("append", "setitem") and op.get("malformed"):
                 def f():
@@ -503,13 +534,36 @@ class HelpersMachine(Machine):
             return float(v)
         if t == "bool":
             return bool(v)
-        if t == "int":
+        if t in ("int", "uint"):
             return int(v)
         return v
 
     def _apply_rows(self, op):
         k = op["op"]
         rc = self.rc
+        if k == "convert":
+            if not self.cols_known:
+                return "skip", None
+            try:
+                if op["how"] == "to_dataframe":
+                    got = len(rc.to_dataframe())
+                elif op["how"] == "to_dataframe_cols":
+                    got = len(rc.to_dataframe(list(self.cols[:1])))
+                elif op["how"] == "to_text":
+                    rc.to_text()
+                    got = len(self.rows)
+                else:
+                    d = rc.to_dict()
+                    got = len(d[self.cols[0]])
+            except Exception as e:
+                raise Violation("accessor_failed",
+                                {"after": op["how"], "error": [type(e).__name__, repr(e.args)[:200]]},
+                                signature=f"C20/accessor_failed/{self.kind}")
+            if got != len(self.rows):
+                raise Violation("rows_differ_from_model",
+                                {"after": op["how"], "got": got, "want": len(self.rows)},
+                                signature=f"C20/rows/{op['how']}")
+            return "converted", op["how"]
         if k == "append_list":
             row = list(op["row"])[:len(self.cols)]
             if len(row) < len(self.cols) or not self.cols_known:
